@@ -127,7 +127,22 @@ func checkC10(c *Ctx) {
 			}
 			la := l.src.lenAff
 			for k, v := range la.T {
-				if strings.HasSuffix(k, ".Length") && v == 1 && len(la.T) == 1 && la.K == int64(-hdr) {
+				isLen := strings.HasSuffix(k, ".Length")
+				if sv := la.Sym[k]; !isLen && sv != nil {
+					// dwLength as it sits in a scratch header that is copied into the result
+					isLen = copiedIntoField(rw, sv, sigPkg+".WINCertificate.Length")
+				}
+				if !isLen {
+					// ... named by the storage path: the same cell is what the result's Length is set from
+					for _, f := range withAnon(rw) {
+						instrsOf(f, func(i ssa.Instruction) {
+							if st, isSt := i.(*ssa.Store); isSt && ir.FieldID(st.Addr) == sigPkg+".WINCertificate.Length" && strings.TrimPrefix(resolvedPath(ir.StripConv(st.Val)), "*") == strings.TrimPrefix(k, "*") {
+								isLen = true
+							}
+						})
+					}
+				}
+				if isLen && v == 1 && len(la.T) == 1 && la.K == int64(-hdr) {
 					ok = true
 				}
 			}
